@@ -24,3 +24,13 @@ use block_builder::BlockBuilder;
 
 mod filter_block_builder;
 use filter_block_builder::FilterBlockBuilder;
+
+/// Re-exports of private items for the verification hooks (`--cfg raindb_verif` only).
+#[cfg(raindb_verif)]
+pub(crate) mod verif_exports {
+    pub(crate) use super::block_builder::BlockBuilder;
+    pub(crate) use super::block_handle::BlockHandle;
+    pub(crate) use super::filter_block::FilterBlockReader;
+    pub(crate) use super::filter_block_builder::FilterBlockBuilder;
+    pub(crate) use super::footer::Footer;
+}
